@@ -59,7 +59,9 @@ CREDS = {
 }
 CRED_NAMES = sorted(CREDS)
 LEVEL_OF = {"v3:u1": 0, "v3:u2": 1, "v3:u3": 3}
-CONTEXTS = [(b"", b""), (b"", b"ctxA"), (b"\x80\x00\x00\x01\x05", b""), (b"\x80\x00\x00\x01\x06zz", b"ctxB")]
+CONTEXTS = [(b"", b""), (b"", b"ctxA"), (b"\x80\x00\x00\x01\x05", b""), (b"\x80\x00\x00\x01\x06zz", b"ctxB"),
+            # engine ids / names made of zero octets only, or starting with one ("falsy-looking")
+            (b"\x00", b""), (bytes(5), b"\x00"), (bytes(12), b"x"), (b"\x00\x80\x00\x01\x07", b"0"), (b"0", b" ")]
 
 
 class Boom(Exception):
